@@ -251,9 +251,12 @@ func checkC03(r *Run) {
 	r.alias = nil
 	// r8: operations keep reaching the File a handle was derived from: the server fences a path
 	// only after the backend really removed or replaced it (the rule of C08.r1).
-	r.alias = map[string]string{"r1": "r8"}
-	c08Bookkeeping(r, m)
-	r.alias = nil
+	// ... renames are told to the backend with the entry's current name (read while renames
+	// are excluded, C08.r2) and the bookkeeping of a rename mirrors what the backend did
+	// (C08.r3).
+	if r.borrowed == nil {
+		r.borrow(checkC08, map[string]string{"r1": "r8", "r2": "r8", "r3": "r8"})
+	}
 }
 
 type srvEntry struct {
